@@ -1,6 +1,6 @@
 #!/bin/sh
 # usage: tools/try_seed.sh <dir with patch.diff> <prop> [<prop> ...]   -- applies the patch to /repo, runs quick checks, reverts
-D="$1"; shift
+D="$(cd "$1" && pwd)"; shift
 cd /repo && git apply "$D/patch.diff" || { echo "patch does not apply"; exit 2; }
 cd /verif
 for P in "$@"; do
